@@ -309,7 +309,7 @@ def required_labels(tier):
 
 
 def phases(tier, seed):
-    n = 6400 if tier == 'quick' else 40000
+    n = 6400 if tier == 'quick' else 200000
     return [
         Enum('colour-type-grid', pam_colour_grid, exhaustive=True,
              note='black / white / colour / transparent combinations which select the PAM tuple type and the PNG colour type'),
